@@ -35,6 +35,9 @@ fn exercise(f: &AsepriteFile) {
     for i in 0..f.num_tags() {
         let _ = f.tag(i).name();
     }
+    if f.num_layers() > 66000 {
+        println!("  D19: cel(0, 66000).is_empty() = {} (layer 66000 has no cel; layer 464 has one)", f.cel(0, 66000).is_empty());
+    }
     let _ = f.slices().len();
     let _ = format!("{:?}", f).len();
 }
